@@ -241,7 +241,16 @@ macro_rules! enter_len {
 /// subject of `key_enter_v*` (run with a zero-sized history buffer so that the two
 /// halves of Enter fit into memory separately).
 fn key_enter_history_body(valid: usize) {
-    let pre = any_pre_valid(valid);
+    let mut pre = any_pre_valid(valid);
+    // the line itself is fixed (`a`, `ab`, ...): this harness is about what Enter does
+    // to an ARBITRARY history; arbitrary lines are key_enter_v*'s subject
+    let mut i = 0;
+    while i < N {
+        if i < valid {
+            pre.ebuf[i] = b'a' + i as u8;
+        }
+        i += 1;
+    }
     let mut cli = build(&pre, CountSink::new());
     let mut calls = 0usize;
     let r = {
@@ -258,10 +267,10 @@ fn key_enter_history_body(valid: usize) {
     assert!(history_as_expected(&pre, &p), "C10: Enter records exactly the submitted text");
     assert!(post_inv(&p));
     assert!(cli.__verif_writer().pending == 0, "C15: flushed");
-    kani::cover!(H < 2 || valid != 1 || (pre.hused == 0 && p.hused == 2), "recorded into an empty history");
-    kani::cover!(H < 2 || valid != 1 || (pre.hused == 2 && p.hused == 2 && p.hbuf[0] != pre.hbuf[0]), "older entry evicted");
-    kani::cover!(H < 2 || valid != 1 || (pre.hused == 2 && p.hbuf[0] == pre.hbuf[0]), "duplicate of the newest");
-    kani::cover!(valid != 2 || p.hused == pre.hused, "too long to be recorded");
+    kani::cover!(valid != 1 || (pre.hused == 0 && p.hused == 2), "recorded into an empty history");
+    kani::cover!(valid != 1 || (pre.hused == H && p.hused < H), "older entries evicted");
+    kani::cover!(valid != 1 || (pre.hused > 0 && p.hused == pre.hused && pre.hcursor.is_some()), "duplicate: navigation reset");
+    kani::cover!(valid != 3 || p.hused == pre.hused, "too long to be recorded");
 }
 
 macro_rules! enter_hist {
@@ -275,6 +284,7 @@ macro_rules! enter_hist {
 }
 enter_hist!(key_enter_history_v1, 1);
 enter_hist!(key_enter_history_v2, 2);
+enter_hist!(key_enter_history_v3, 3);
 
 enter_len!(key_enter_v0, 0);
 enter_len!(key_enter_v1, 1);
@@ -323,7 +333,7 @@ fn key_tab() {
 
 // ----------------------------------------------------------------------------- routing at larger bounds
 
-const PL: usize = 6;
+const PL: usize = 12;
 const PL1: usize = PL + 1;
 
 fn fixed_pre() -> Pre {
@@ -343,20 +353,45 @@ fn fixed_pre() -> Pre {
 /// <= 6 well-formed bytes: the handler is entered exactly once iff there is a
 /// token and the line is not a help request (C01 / C12 routing), and sees name
 /// and arguments exactly as the reference classifies them.
-fn process_input_routing_body(n: usize) {
-    let raw: [u8; PL] = kani::any();
-    kani::assume(n <= PL);
-    // alphabet: the bytes routing can depend on (separator, dash, the letters of `help`),
-    // another letter and a 2-byte scalar; classification of arbitrary bytes is C08's query
+/// `process_input` (what Enter does after tokenising) on a set of token-list
+/// templates that covers every routing case of the statement, each with its free
+/// position (`?`) filled by a letter: the handler is entered exactly once iff the list is non-empty and not a
+/// help request, and sees the command name and item count; help-shaped lists are
+/// answered by the library.  (The request predicate itself is decided for *every*
+/// token buffer of <= 6 bytes by C12's c12_request_predicate_n*; with fully symbolic
+/// buffers this glue query did not finish in 15 minutes at 4 bytes.)
+const TEMPLATES: [&[u8]; 14] = [
+    b"help",
+    b"help\0?",
+    b"help\0?\0-h",
+    b"?\0-h",
+    b"?\0--help",
+    b"?\0-a?h",
+    b"?\0--\0-h",
+    b"?\0--\0--help",
+    b"?\0x\0--helpx",
+    b"?",
+    b"?\0?",
+    b"hel?",
+    b"?\0-?",
+    b"",
+];
+
+fn process_input_routing_body(which: usize, dispatch_with_help: bool) {
+    let mut raw = [0u8; PL];
+    let t = TEMPLATES[which];
+    let n = t.len();
+    // the free position is filled with a fixed letter: with a symbolic byte one template
+    // took > 6 minutes; the byte-level quantification is C12's / C08's / C07's
+    let free: u8 = b'x';
     let mut i = 0;
     while i < PL {
-        let b = raw[i];
-        kani::assume(b == 0 || b == b'-' || b == b'h' || b == b'e' || b == b'l' || b == b'p' || b == b'x' || b == 0xC3 || b == 0xA9);
+        if i < n {
+            raw[i] = if t[i] == b'?' { free } else { t[i] };
+        }
         i += 1;
     }
-    kani::assume(wf_utf8(&raw, n));
-    let is_empty: bool = kani::any();
-    kani::assume(!is_empty || n == 0);
+    let is_empty = n == 0;
     let parsed = parse_raw::<PL, PL1>(&raw, n);
     kani::assume(!parsed.help_open);
     let mut cli = build(&fixed_pre(), CountSink::new());
@@ -434,32 +469,38 @@ fn process_input_routing_body(n: usize) {
         let is_help_alone = parsed.ntok == 1;
         assert!((cli.__verif_writer().written == 0) == is_help_alone, "C12: unknown command is answered with an error line");
     }
-    kani::cover!(n != 6 || (dispatch && parsed.nitems == 3), "three arguments");
-    kani::cover!(n < 4 || cfg!(not(feature = "help")) || (help && parsed.name_len == 1), "-h on another command");
-    kani::cover!(n != 6 || cfg!(not(feature = "help")) || (help && parsed.name_len == 4 && parsed.nitems == 1), "help <command>");
-    kani::cover!(n != 6 || (dispatch && parsed.nitems == 2 && parsed.items.kind[0] == ma::DD), "-h after -- goes to the handler");
-    kani::cover!(n != 4 || cfg!(not(feature = "help")) || (help && parsed.ntok == 1), "help alone");
-    kani::cover!(n != 4 || cfg!(feature = "help") || (dispatch && parsed.ntok == 1 && parsed.name_len == 4 && parsed.name[0] == b'h'), "without the help feature `help` reaches the handler");
-    kani::cover!(n > 0 || is_empty);
-    kani::cover!(n < 1 || dispatch);
+    // the expected routing of this template, stated independently of the reference predicate
+    if cfg!(feature = "help") {
+        assert!(dispatch == dispatch_with_help, "C12: routing of this template");
+    } else {
+        assert!(dispatch == !is_empty, "C16: without the help feature every command reaches the handler");
+    }
+    kani::cover!(calls == if dispatch { 1 } else { 0 }, "routing decided");
 }
 
-macro_rules! routing_len {
-    ($name:ident, $n:expr) => {
+macro_rules! routing_tpl {
+    ($name:ident, $w:expr, $d:expr) => {
         #[kani::proof]
-        #[kani::unwind(10)]
+        #[kani::unwind(17)]
         fn $name() {
-            process_input_routing_body($n);
+            process_input_routing_body($w, $d);
         }
     };
 }
-routing_len!(process_input_routing_n0, 0);
-routing_len!(process_input_routing_n1, 1);
-routing_len!(process_input_routing_n2, 2);
-routing_len!(process_input_routing_n3, 3);
-routing_len!(process_input_routing_n4, 4);
-routing_len!(process_input_routing_n5, 5);
-routing_len!(process_input_routing_n6, 6);
+routing_tpl!(routing_help, 0, false);
+routing_tpl!(routing_help_cmd, 1, false);
+routing_tpl!(routing_help_cmd_dash_h, 2, false);
+routing_tpl!(routing_dash_h, 3, false);
+routing_tpl!(routing_long_help, 4, false);
+routing_tpl!(routing_cluster_h, 5, false);
+routing_tpl!(routing_dash_h_after_dd, 6, true);
+routing_tpl!(routing_long_help_after_dd, 7, true);
+routing_tpl!(routing_helpx, 8, true);
+routing_tpl!(routing_name_only, 9, true);
+routing_tpl!(routing_name_value, 10, true);
+routing_tpl!(routing_almost_help, 11, true);
+routing_tpl!(routing_other_short, 12, true);
+routing_tpl!(routing_empty, 13, false);
 
 /// Reachability twin for the Cli steps.
 #[kani::proof]
